@@ -485,7 +485,14 @@ def r48(ctx, sn, result=None, KEY=None):
             elif pc == PIECE('Pawn') and col == OPP and sqs == ('single', call('square::Square::ubackward', DST, STM, gargs=())):
                 ok = all(c.get(('moved', 'Pawn')) is True and c.get('ep-capture') is True and c.get('promotion') is not True and
                          not (c.get('src-double') and c.get('dst-double')) for c in conds)
-                if ok:
+                # a further condition on the way to the toggle (`self.checkers == EMPTY && ..`) narrows the capture: the pawn taken
+                # en passant stays on the board whenever it is false.  Only tests of the en-passant slot itself are implied.
+                foreign = sorted({t_ for c in conds for (t_, tv_) in c.get('other', []) if 'en_passant' not in t_})
+                if ok and foreign:
+                    problems.append(('C02.R8', 'ep-capture-narrowed', 'the en-passant capture toggle additionally depends on `%s`: when that '
+                                     'fails the captured pawn is not removed' % foreign[0], line))
+                    seen['ep-capture'] = True
+                elif ok:
                     seen['ep-capture'] = True
                 else:
                     problems.append(('C02.R8', 'ep-capture-guard', 'the en-passant capture toggle is not guarded by (pawn, no promotion, not a double '
